@@ -144,7 +144,11 @@ class Interp:
         skip_self = bool(params) and params[0] in ('self', 'cls') and isinstance(call.func, ast.Attribute)
         if skip_self:
             params = params[1:]
-        e2 = {k: v for k, v in env.items() if isinstance(k, str) and (k == 'self' or k.startswith('self.'))}
+        if isinstance(getattr(callee, '_parent', None), (ast.FunctionDef, ast.AsyncFunctionDef)):
+            # a nested function reads its enclosing function's variables (closure): it sees the caller's environment
+            e2 = {k: v for k, v in env.items() if not (isinstance(k, str) and k.startswith('<'))}
+        else:
+            e2 = {k: v for k, v in env.items() if isinstance(k, str) and (k == 'self' or k.startswith('self.'))}
         defaults = callee.args.defaults
         for p, d in zip(params[len(params) - len(defaults):], defaults):
             e2[p] = self.value(d, {})
